@@ -545,10 +545,12 @@ Proof.
   destruct (mtype m =? ENPASSANT); [destruct (file_of (mfrom m) <? file_of (mto m)); reflexivity|].
   destruct (N.eqb_spec (mover p m) PAWN) as [Ep|Ep].
   - rewrite Ep. change (PAWN =? KING) with false. cbv iota.
-    destruct (file_of (mfrom m) =? file_of (mto m)); [|destruct (file_of (mto m) <? file_of (mfrom m)); destruct (mtype m =? PROMOTION); reflexivity].
-    destruct (mtype m =? PROMOTION); [destruct (prom_nq && ((mprom m =? QUEEN) || (mprom m =? KNIGHT))); reflexivity|].
-    destruct (zabs_diff (rank_of (mfrom m)) (rank_of (mto m)) =? 2); reflexivity.
-  - destruct (mover p m =? KING); destruct (piece_at p (mto m) =? 0); reflexivity.
+    destruct (file_of (mfrom m) =? file_of (mto m));
+      [|destruct (file_of (mto m) <? file_of (mfrom m)); destruct (mtype m =? PROMOTION); cbn [N.eqb Pos.eqb orb]; reflexivity].
+    destruct (mtype m =? PROMOTION);
+      [destruct (prom_nq && ((mprom m =? QUEEN) || (mprom m =? KNIGHT))); cbn [N.eqb Pos.eqb orb]; reflexivity|].
+    destruct (zabs_diff (rank_of (mfrom m)) (rank_of (mto m)) =? 2); cbn [N.eqb Pos.eqb orb]; reflexivity.
+  - destruct (mover p m =? KING); destruct (piece_at p (mto m) =? 0); cbn [N.eqb Pos.eqb orb]; reflexivity.
 Qed.
 
 Lemma keep_agree k y : (k < 15)%nat -> In y (comp k) -> comp_keep k y = ev_keep y.
